@@ -29,6 +29,7 @@ def H(name, file, props, **kw):
 # lists are cut); loops that really iterate get their bound here. Unwinding assertions stay on: a loop that
 # needs more than its bound is reported (inconclusive), never silently truncated.
 STEP_UWS = [
+    (r'4mqtt6packet', 6),                # loops of the packet modules (identifier bytes, entries, reason codes)
     (r'verif_model', 8),                 # container / event-list models: capacity + 1
     (r'verif_harness', 10),              # harness-side loops (monitor, count, reference models)
     (r'variable_byte_integer', 5),       # 1-4 byte integers
@@ -42,6 +43,9 @@ STEP_UWS = [
     (r'packet_builder', 8),
     (r'6cursor', 8),
     (r'mqtt_string|mqtt_binary|arc_payload', 8),
+    # last (overrides the rules above): any loop over a list of properties - at most 2 properties in any harness,
+    # phantom iterations (27-way switch each) are cut
+    (r'8property8Property|8property.*Properties|_properties', 3),
 ]
 
 
@@ -286,7 +290,7 @@ S('st_recv_connect_v311_server', {'C15': 'quick', 'C10': 'quick', 'C05': 'thorou
   bounds='CONNECT (keep-alive all u16, clean flag symbolic) received by a disconnected v3.1.1 server that kept the receive timeout of an earlier connection (all u16)', symbolic='old keep-alive, keep-alive, clean, need_store',
   encodes=['process_recv_v3_1_1_connect', 'v3_1_1::Connect::parse', 'initialize', 'refresh_pingreq_recv'])
 S('st_recv_connect_v5_server_tam', {'C05': 'quick', 'C13': 'thorough'}, stubs=_st, est=900, mem='XL', timeout=3600,
-  uws=STEP_UWS + [(r'8property', 3)],
+  uws=STEP_UWS,
   bounds='v5.0 CONNECT with one property Topic Alias Maximum (all u16 incl. 0), keep-alive all u16, received by a disconnected server', symbolic='keep-alive, Topic Alias Maximum',
   encodes=['process_recv_v5_0_connect', 'v5_0::Connect::parse', 'Properties::parse', 'TopicAliasSend::new'])
 
@@ -340,7 +344,7 @@ K('c04_suback_family_prefixes', {'C04': 'thorough', 'C03': 'thorough'}, est=600,
   bounds='every prefix of SUBACK (v3.1.1, v5.0) and UNSUBACK (v5.0) bodies with one code', symbolic='3 bytes', encodes=['{v3_1_1,v5_0}::GenericSuback::parse', 'v5_0::GenericUnsuback::parse'])
 
 # =============================================================================== C13 steps
-_uw_props = STEP_UWS + [(r'8property', 3)]
+_uw_props = STEP_UWS
 S('st_send_publish_v5_manual_alias_bind', {'C13': 'quick'}, stubs=_st, est=900, mem='XL', timeout=3600,
   bounds='v5.0 QoS0 PUBLISH (topic in {a,b}) with Topic Alias ax (all u16 >= 1) sent by a connected client whose table (max 3) holds two earlier bindings (aliases, topics symbolic); sender table compared with a receiver model for aliases 1..=3',
   symbolic='k1, k2, a1, a2, kx, ax', encodes=['process_send_v5_0_publish', 'validate_topic_alias_range', 'TopicAliasSend::{insert_or_update,peek}', 'v5_0::GenericPublish::parse'])
@@ -386,8 +390,8 @@ for _k in ('suback_v311', 'unsuback_v311', 'suback_v5', 'unsuback_v5'):
       bounds='%s (id r all u16) received by a connected client with one pending id u (still in use, or already released by the application) and one unrelated id' % _k.upper(), symbolic='u, w, r, still-used flag',
       encodes=['process_recv_*_%s' % _k.split('_')[0]])
 # v5.0 codec harnesses follow the same scheme as the steps (global unwind 2 + whitelist)
-CODEC_UWS = STEP_UWS + [(r'verif_harness', 24), (r'8property', 3)]
-LONG_UWS = STEP_UWS + [(r'verif_harness', 140), (r'8property', 3), (r'mqtt_string|mqtt_binary|arc_payload', 140), (r'memcmp|compare_bytes|SlicePartialEq|5slice3cmp', 140)]
+CODEC_UWS = [(r'verif_harness', 24)] + STEP_UWS
+LONG_UWS = [(r'verif_harness', 140)] + STEP_UWS[:-1] + [(r'mqtt_string|mqtt_binary|arc_payload', 140), (r'memcmp|compare_bytes|SlicePartialEq|5slice3cmp', 140), STEP_UWS[-1]]
 for _h in HARNESSES:
     if _h['file'] == 'codec' and (_h['name'].startswith(('c02_v5_', 'c04_v5_')) or _h['name'] in ('c04_subscribe_family_prefixes', 'c04_suback_family_prefixes', 'c04_v311_connect_prefixes', 'c03_numeric_tables', 'c02_v311_connect', 'c02_v311_subscribe_family')):
         _h['uws'] = LONG_UWS if 'props12' in _h['name'] else CODEC_UWS
